@@ -29,6 +29,7 @@ DECIDED = [
     "PURE-1 the source tree is never written",
     "ALIAS-4 every source child is merged into its counterpart or cloned; only clones are added",
     "SEL-1 the selector deciding 'child is missing' implies the precondition of the add (name not yet used)",
+    "VAL-2 the convertibility test behind merge_check (_validate_values) turns every conversion failure into a refusal (ValueError), whatever the converter raises",
     "VAL-1 the values merge passes to extend are the source values that merge_check validated",
 ]
 NOT_DECIDED = ["which values count as lacked (equality of values)", "conversion of source values to the destination dtype",
@@ -298,6 +299,23 @@ def run(prog, rep):
                   "%s matches %s children by %s but SmartList.append refuses on the name alone: a source child with a "
                   "used name and another type is neither merged nor addable" % (f.short, kind, sorted(attrs)), f.where,
                   witness="a.merge(b) with a/x[t1], b/first[t1], b/x[t2]: KeyError after 'first' was added")
+
+    # ----------------------------------------------------------------- VAL-2
+    rep.rule("VAL-2", "BaseProperty._validate_values converts each value with dtypes.get(value, self.dtype) inside try / except Exception: "
+                      "return False - a converter failing with TypeError (int() of a date, strptime of a number) is a refusal like any other, "
+                      "which merge_check reports as ValueError before anything was changed")
+    from ..contracts import _validate_values_shape
+
+    class _Holder(object):
+        pass
+    holder = _Holder()
+    holder.an = analysis.get(prog)
+    vv = prog.cls("BaseProperty").lookup_method("_validate_values")
+    rep.saw_function(vv)
+    rep.check(_validate_values_shape(holder), "VAL-2", "_validate_values catches every conversion failure", "try / except Exception",
+              "_validate_values no longer converts under a catch-all handler that returns False: merge() of Properties with an unconvertible "
+              "dtype pair leaks the converter's exception instead of the documented ValueError", vv.where,
+              witness="int Property merged with a date Property: TypeError instead of ValueError")
 
     # ----------------------------------------------------------------- VAL-1
     rep.rule("VAL-1", "Property.merge extends with a selection of other.values; Property.merge_check validates "
